@@ -210,7 +210,7 @@ Definition validate_basic (m : msg) : bool :=
   match m with
   | Issue owner sym minu nm scale initial max mintable =>
       valid_addr owner && valid_tname nm && valid_sym sym && valid_sym minu
-      && (initial <=? MAXINIT) && negb (effective_max max initial mintable <? initial) && (scale <=? 18)
+      && (initial <=? MAXINIT) && negb (effective_max max initial mintable <? initial) && (0 <=? scale) && (scale <=? 18)
   | Edit owner sym nm _ _ => valid_addr owner && valid_tname nm && valid_sym sym
   | Mint owner receiver denom amt =>
       valid_addr owner && ((receiver =? -2) || valid_addr receiver) && (0 <? amt) && valid_sym denom
@@ -219,7 +219,7 @@ Definition validate_basic (m : msg) : bool :=
   | SwapFee sender receiver denom amt =>
       valid_addr sender && ((receiver =? -2) || valid_addr receiver) && (0 <? amt) && valid_sym denom
   | Deploy auth nm sym minu scale =>
-      valid_addr auth && valid_tname nm && (scale <=? 18) && valid_erc20_name minu && valid_erc20_name sym
+      valid_addr auth && valid_tname nm && (0 <=? scale) && (scale <=? 18) && valid_erc20_name minu && valid_erc20_name sym
   | ToErc20 sender receiver denom amt => valid_addr sender && valid_addr receiver && valid_sdk_denom denom && (0 <? amt)
   | FromErc20 sender receiver denom amt => valid_addr sender && valid_addr receiver && valid_sdk_denom denom && (0 <? amt)
   | SetParams auth tax ratio base _ _ =>
